@@ -32,6 +32,8 @@ def geometries(rng, tier):
             rbsb = rng.randint(bs, cb)
             hb = rng.choice([0, 1])
             size = rng.choice([1 << 20, 1 << 30, (1 << 40) + 512, 1 << 16])
+            # one L1 table of at most 32 MiB must map the whole disk (images beyond that are refused at open)
+            size = min(size, (1 << 22) * (1 << (2 * cb - 3)) - 512)
             gs.append((cb, ro, size, hb, bs, '%d:%d' % (l2sb, 4 << l2sb), '%d:%d' % (rbsb, 2 << rbsb), 0, 0, l2sb, rbsb))
             if cb >= 12 and rng.random() < 0.3:
                 gs.append((cb, ro, size, hb, 9, '-', '-', 0, 0, 12, 12))
